@@ -1,3 +1,86 @@
-import MoThreads.Model.Till
+/-
+  C14 — Till: shutdown can not strand a waiter.  Theorems about M6, the model of the REPAIRED
+  Till.__init__ (commit "fix: a Till created while the timer daemon shuts down is triggered…").
+  The pinned tree violated it: a creation that passed the `enabled` test and appended after the
+  daemon's final swap was never fired (replay: corpus/m6/c14-stranded.json).
+-/
+import MoThreads.Props.C13
 namespace MoThreads.Till
+open MoThreads
+
+/-- When the daemon has finished its shutdown and no creation is in progress, EVERY Till object ever
+created is true — for every placement of the shutdown relative to each step of each creation. -/
+theorem C14_drain {s : State} (h : sys.Reach s) (hd : s.dpc = .done) (hidle : ∀ t, s.cpc t = .idle)
+    (id : Nat) (hc : s.created id = true) : s.fired id = true := by
+  have i := reach_inv h
+  cases hf : s.fired id with
+  | true => rfl
+  | false =>
+    cases hr : s.regd id with
+    | true =>
+      rcases i.Loc id hr hf with h1 | h1 | h1
+      · have := i.F1' (by simp [hd, DPC.postSwap]); rw [this] at h1; cases h1
+      · have := i.F2 (by simp [hd, DPC.drained]); rw [this] at h1; cases h1
+      · simp [hd, DPC.transit] at h1
+    | false =>
+      have := i.F3 id hc hr hf
+      rw [hidle] at this; simp [CPC.making] at this
+
+/-- Creators are never blocked for good: the locker's holder can always move. -/
+theorem C14_creators_finish {s : State} (h : sys.Reach s) (hq : sys.Quiescent s) (hd : s.dpc = .done)
+    (t : Nat) : s.cpc t = .idle := by
+  have i := reach_inv h
+  by_cases ht : t = 0
+  · rw [ht]; exact i.cz
+  · have hq' : step s t = none := hq t
+    unfold step at hq'; simp only [ht, if_false] at hq'
+    unfold stepC at hq'
+    cases hp : s.cpc t with
+    | idle => rfl
+    | c2 d id =>
+      rw [hp] at hq'; simp only at hq'
+      cases hl : s.locker with
+      | none => simp [hl] at hq'
+      | some u =>
+        have hu0 : u ≠ 0 := by
+          intro h0; rw [h0] at hl
+          have := i.lk0.mpr hl; simp [hd, DPC.holds] at this
+        have hh := (i.lkt u hu0).mpr hl
+        have hqu : step s u = none := hq u
+        unfold step at hqu; simp only [hu0, if_false] at hqu
+        unfold stepC at hqu
+        cases hpu : s.cpc u <;> rw [hpu] at hh <;> simp [CPC.holds] at hh <;> rw [hpu] at hqu <;> simp at hqu
+        split at hqu <;> cases hqu
+    | c3b d id g0 => rw [hp] at hq'; simp only at hq'; split at hq' <;> cases hq'
+    | _ => rw [hp] at hq'; simp at hq'
+
+/-- L1: in every quiescent state after the daemon has ended, every Till ever created is true, so no
+thread can be parked on one (by C01, a waiter on a true signal is released). -/
+theorem C14_no_stranded_till {s : State} (h : sys.Reach s) (hq : sys.Quiescent s) (hd : s.dpc = .done)
+    (id : Nat) (hc : s.created id = true) : s.fired id = true :=
+  C14_drain h hd (C14_creators_finish h hq hd) id hc
+
+/-- A Till requested after the daemon disabled timers is the always-true signal: no object is created. -/
+theorem C14_after_disable_returns_done {s s' s'' : State} {t : Nat} {secs : Int} {l : Label} (hdis : s.disabled = true)
+    (hc : callTill s t secs = some s') (hst : step s' t = some (s'', l)) :
+    s''.cpc t = .idle ∧ l = .cEnabled false ∧ s''.nextId = s.nextId := by
+  unfold callTill at hc
+  split at hc
+  · cases hc
+  · rename_i ht
+    split at hc
+    · cases hc
+      unfold step at hst; simp only [ht, if_false] at hst
+      unfold stepC at hst; simp [State.setC, hdis] at hst
+      obtain ⟨rfl, rfl⟩ := hst
+      simp [State.setC]
+    · cases hc
+
+/-- A creation caught in the middle by the shutdown fires its own Till (`late` branch). -/
+theorem C14_late_creation_fires_itself {s s' : State} {t id : Nat} {l : Label} (ht : t ≠ 0) (hp : s.cpc t = .c5 id)
+    (hst : step s t = some (s', l)) : s'.fired id = true := by
+  unfold step at hst; simp only [ht, if_false] at hst
+  unfold stepC at hst; rw [hp] at hst; cases hst
+  unfold fireId; split <;> simp_all [State.setC]
+
 end MoThreads.Till
